@@ -171,7 +171,7 @@ _ADD2 = {
     "C05": " Value functions also on assignments of exactly the variables present in the terms; quadratic types must raise KeyError for keys of three distinct variables (constructor, item assignment, +=); exact big-integer evaluation.",
     "C08": " Optional set_mapping before the constraints, explicit bounds modes, whole-pipeline magnitude scaling, a record-only big-M constraint judged through solve_bruteforce, template term order reversal.",
     "C09": " Sub-check stale (models derived from one that still reports a cancelled variable; loose demand), user-subclass mode, the valid callback checks that the model reads as passed in, mutually unorderable labels for plain-dict inputs, mixed exact magnitudes.",
-    "C10": " SetCover weight 0, large-number NumberPartitioning with exact arg-min selection, GraphPartitioning degree attribute on simple graphs.",
+    "C10": " Penalty weights also handed positionally to solve_bruteforce; SetCover weight 0, large-number NumberPartitioning with exact arg-min selection, GraphPartitioning degree attribute on simple graphs.",
     "C11": " Labelled models with a past (clear + rebuild), cancelled variables holding the lowest mapping integers, models derived by copy / constructor / arithmetic identity, one magnitude class per model.",
     "C12": " Seeds beyond the C int range (refused or reproducible across a clock second), re-heating pattern in the distribution test, magnitude classes.",
     "C13": " Three-step chains (state-setting operation, in-place merge, best-recomputing removal), near-equal values, growth cap.",
@@ -180,7 +180,7 @@ _ADD2 = {
     "C16": " Whole-model magnitude scaling (2^-45, 2^30).",
     "C17": " Identical seeded calls inside one sequence must agree; enumerated sub-check repeat with 10^5 spins; the generator additions of C11.",
     "C18": " A third of the sources from the order-upsetting label pools; directed merge term.",
-    "C19": " Stale variables / stale degree in every catalogue slot; explicit zero constants in solver dict arguments; cost guard.",
+    "C19": " Stale variables / stale degree in every catalogue slot; explicit zero constants in solver dict arguments; cost guard; info models whose ancilla counter exceeds the remaining variables (strip) and with a recorded-only constraint carrying a sympy coefficient (symcon).",
 }
 for _k, _v in _ADD2.items():
     CHECKS[_k]["text"] = CHECKS[_k]["text"] + _v
